@@ -53,6 +53,7 @@ impl TryFrom<&[AST]> for Context {
 
     fn try_from(files: &[AST]) -> Result<Self, Self::Error> {
         let (classes, fields, functions) = generics(files)?;
+        check_acyclic(&classes)?;
         let mut context = Context::default();
         classes.iter().for_each(|clss| {
             context.classes.insert(clss.clone());
@@ -66,6 +67,31 @@ impl TryFrom<&[AST]> for Context {
 
         context.into_with_primitives()?.into_with_std_lib()
     }
+}
+
+/// Check that no class is (indirectly) its own parent.
+///
+/// Class lookup recursively visits parents, so a cycle would otherwise lead to unbounded recursion.
+fn check_acyclic(classes: &HashSet<GenericClass>) -> TypeResult<()> {
+    for class in classes {
+        let mut visited: HashSet<&str> = HashSet::new();
+        let mut todo: Vec<&GenericClass> = vec![class];
+        while let Some(current) = todo.pop() {
+            for parent in &current.parents {
+                let parent_name = parent.name.variant.name.as_str();
+                if parent_name == class.name.name {
+                    let msg = format!("Class '{}' cannot be its own (indirect) parent", class.name);
+                    return Err(vec![TypeErr::new(class.pos, &msg)]);
+                }
+                if visited.insert(parent_name) {
+                    if let Some(parent) = classes.iter().find(|c| c.name.name == parent_name) {
+                        todo.push(parent);
+                    }
+                }
+            }
+        }
+    }
+    Ok(())
 }
 
 pub trait LookupClass<In, Out> {
